@@ -15,8 +15,10 @@ enum Bad {
     CloseMidMessage,
     Garbage,
     SlowDrip,
+    /// sends complete requests and hangs up without reading a single reply
+    SendAndVanish,
 }
-const BADS: &[Bad] = &[Bad::Idle, Bad::HalfMessage, Bad::CloseMidMessage, Bad::Garbage, Bad::SlowDrip];
+const BADS: &[Bad] = &[Bad::Idle, Bad::HalfMessage, Bad::CloseMidMessage, Bad::Garbage, Bad::SlowDrip, Bad::SendAndVanish, Bad::SendAndVanish];
 
 pub fn round(ctx: &Ctx, address: &str, tname: &str, nclients: usize, nbad: usize, seed: u64, round_no: usize) {
     let mut rng = Rng::lane(seed, 1300 + round_no as u64);
@@ -39,6 +41,16 @@ pub fn round(ctx: &Ctx, address: &str, tname: &str, nclients: usize, nbad: usize
                 }
                 Bad::Garbage => {
                     let _ = c.write_all(b"\xff\xfe{{{{not json\0");
+                }
+                Bad::SendAndVanish => {
+                    // replies to these can never be delivered; whatever the server buffered for
+                    // them must not surface on anybody else's connection
+                    let mut b = Vec::new();
+                    for k in 0..rng.range(1, 4) {
+                        b.extend(Req::new(*rng.pick(&[Kind::Echo, Kind::Stream2, Kind::GetInfo]), Flags { more: true, oneway: false }, &format!("R{}CVANISH{}_{}", round_no, peers.len(), k)).to_bytes());
+                    }
+                    let _ = c.write_all(&b);
+                    c.shutdown_both();
                 }
             }
             peers.push((b, c));
